@@ -78,6 +78,19 @@ class Component:
 
     def op(self, name: str):
         b = self.obj
+        if name.startswith("loop_"):
+            # the caller is a thread that runs an asyncio event loop (an async service sharing the component with
+            # worker threads): the operation is invoked from inside a running loop
+            import asyncio
+
+            async def inside_loop():
+                return self.op(name[len("loop_"):])
+
+            loop = asyncio.new_event_loop()
+            try:
+                return loop.run_until_complete(inside_loop())
+            finally:
+                loop.close()
         if name.startswith("locked_"):
             # user code that holds its clock's lock while it talks to the breaker (e.g. advancing a manual clock)
             with self.clock_lock:
@@ -332,6 +345,11 @@ def enum_two_by_one(tier: str):
         for init in inits:
             for a, b in itertools.product(ops, repeat=2):
                 yield {"kind": kind, "init": init, "program": [[a], [b]], "max_preemptions": None, "max_schedules": 60000}
+    # one of the two threads is running an event loop and calls the component from inside it
+    for kind, ops, inits in (("breaker", ["allow", "fail", "succ"], ["closed_near", "open_ready", "half_probe"]), ("budget", BUDGET_OPS, BUDGET_INITS)):
+        for init in inits:
+            for a, b in itertools.product(ops, repeat=2):
+                yield {"kind": kind, "init": init, "program": [["loop_" + a], [b]], "max_preemptions": None, "max_schedules": 60000}
     # a user clock with its own lock: one thread holds that lock while calling the breaker, the other just calls it
     for init in ("closed", "closed_near", "open_ready", "half_probe"):
         for a, b in itertools.product(["allow", "fail", "succ"], ["allow", "fail", "succ", "cancel"]):
@@ -346,6 +364,8 @@ def program_case(draw, tier: str):
     nthreads = draw(st.sampled_from([2, 3, 3]))
     per = draw(st.sampled_from([1, 2] if nthreads == 3 else [2, 2, 3]))
     program = [draw(st.lists(st.sampled_from(ops), min_size=1, max_size=per)) for _ in range(nthreads)]
+    if draw(st.sampled_from([False, False, False, True])):
+        program[0] = ["loop_" + o for o in program[0]]  # thread 0 calls from inside a running event loop
     return {
         "kind": kind,
         "init": draw(st.sampled_from(inits)),
@@ -373,7 +393,8 @@ PROP = Property(
         "meaning there, so the oracle is the safety bound - never more than max_retries grants whose own timestamps lie in one "
         "window - plus no exception / deadlock, under all schedules with <= 2/3 pre-emptions. (iv) a breaker given a user "
         "clock that is protected by its own re-entrant lock, one thread holding that lock while it calls the breaker: no "
-        "schedule may deadlock. Non-trivial = a "
+        "schedule may deadlock. (v) one of the threads runs an asyncio event loop and calls the component from inside it "
+        "(2-thread pairs enumerated in full, and a quarter of the generated programs): same linearizability oracle. Non-trivial = a "
         "program for which at least one explored schedule pre-empted a thread inside a method; distinct = distinct (program, "
         "initial state, bound). evaluations counts schedules executed."
     ),
